@@ -30,7 +30,7 @@ def set_ids(data, eid=None, plid=None, obmc=None):
     return bytes(b)
 
 
-def gen_dir(model, rng, nfiles, plugins=True, maxsecs=3, maxpayload=24, junk=0):
+def gen_dir(model, rng, nfiles, plugins=True, maxsecs=3, maxpayload=24, junk=0, sources=None):
     """[(name, bytes, meta)] : generated well-formed PELs with distinct entry ids (+ optional junk files)"""
     used = set()
     files = []
@@ -41,21 +41,24 @@ def gen_dir(model, rng, nfiles, plugins=True, maxsecs=3, maxpayload=24, junk=0):
         eid = (base + i * 7) & 0xFFFFFFFF if k else (i + 1)
         data = set_ids(case["data"], eid=eid)
         files.append((rand_name(rng, used), data, dict(kind="pel", eid=eid)))
+    pels = [f for f in (sources or files) if f[2]["kind"] == "pel" and len(f[1]) > 72]
     for i in range(junk):
         k = rng.randrange(6)
+        if not pels and k in (2, 3, 4):
+            k = 1
         if k == 0:
             d = b""
         elif k == 1:
             d = bytes(rng.randrange(256) for _ in range(rng.randrange(1, 200)))
-        elif files and k == 2:
-            src = rng.choice(files)[1]
+        elif k == 2:
+            src = rng.choice(pels)[1]
             d = src[:rng.randrange(len(src))]
-        elif files and k == 3:
-            b = bytearray(rng.choice(files)[1])
+        elif k == 3:
+            b = bytearray(rng.choice(pels)[1])
             b[rng.randrange(min(len(b), 72))] ^= 1 << rng.randrange(8)
             d = bytes(b)
-        elif files and k == 4:
-            b = bytearray(rng.choice(files)[1])
+        elif k == 4:
+            b = bytearray(rng.choice(pels)[1])
             b[rng.randrange(len(b))] = rng.randrange(256)
             d = bytes(b)
         else:
